@@ -43,6 +43,11 @@ import (
 //     drop report arrive although nothing else is sent. "Stuck" = no frame received for 8 s while
 //     something is missing. Connection failures are not part of these plans (a TCP write that fails
 //     loses data in flight by nature; the statement's "reconnection time" clause is not exercised).
+//   - upstream address dies (3-5 listeners): what was accepted before the sender noticed the failure (a
+//     counted write error) may be lost with the connection, because a TCP write that "succeeded" into a
+//     dead connection is gone and the code resends only what it had not written; everything accepted
+//     after that, and at least 2 s after the failure, must reach a living upstream exactly once, framed,
+//     byte-exact and in order; 8 s without any frame while such packets are outstanding = stuck.
 //   - sustained overload: while both upstreams read slowly the producer keeps offering packets back to
 //     back, so that drops, the sender's report writes and further drops overlap for several cycles; the
 //     same equalities are checked once everything has drained (a drop that falls between reading and
@@ -56,10 +61,13 @@ type c31EStep struct {
 	RateKBs int    `json:"rate_kbs,omitempty"` // "slow": read rate of each upstream, KiB/s
 	PushMs  int    `json:"push_ms,omitempty"`  // after the burst keep offering packets back to back for this long (sustained overload)
 	ToDrop  bool   `json:"to_drop,omitempty"`  // the burst ends early, at the first dropped packet
+	Kill    string `json:"kill,omitempty"`     // before the gap: "prim0" closes the listener (and its connections) of the first address of the primary sender's pool, "prim01" of the first two
+	Await   bool   `json:"await,omitempty"`    // before the burst: keep the sender busy until it has noticed the failure (a write error is counted) and 2 s have passed since the kill
 }
 
 type c31EPlan struct {
-	Steps []c31EStep `json:"steps"`
+	Upstreams int        `json:"upstreams,omitempty"` // number of local listeners given as the address list (default 2)
+	Steps     []c31EStep `json:"steps"`
 }
 
 type c31ECase struct {
@@ -94,6 +102,7 @@ type c31Upstream struct {
 	ln      net.Listener
 	stalled atomic.Bool
 	rateKBs atomic.Int64 // > 0: read at most this many KiB/s per connection
+	killed  atomic.Bool  // the plan closed this listener and its connections
 	mu      sync.Mutex
 	conns   []*c31UpConn
 	wg      sync.WaitGroup
@@ -101,6 +110,7 @@ type c31Upstream struct {
 
 type c31UpConn struct {
 	up       *c31Upstream
+	conn     net.Conn
 	key      []byte
 	keyDone  bool
 	frames   []c31EFrame
@@ -119,7 +129,7 @@ func (u *c31Upstream) serve(progress *atomic.Int64, sizeOf func(uint64) (int, bo
 		if tc, ok := c.(*net.TCPConn); ok {
 			_ = tc.SetReadBuffer(64 << 10) // keeps the kernel from hiding tens of MB while stalled
 		}
-		uc := &c31UpConn{up: u, progress: progress, sizeOf: sizeOf}
+		uc := &c31UpConn{up: u, conn: c, progress: progress, sizeOf: sizeOf}
 		u.mu.Lock()
 		u.conns = append(u.conns, uc)
 		u.mu.Unlock()
@@ -153,6 +163,9 @@ func (uc *c31UpConn) read(c net.Conn) {
 	defer uc.up.wg.Done()
 	defer c.Close()
 	setBad := func(format string, a ...any) {
+		if uc.up.killed.Load() {
+			return // the harness cut this stream itself
+		}
 		uc.up.mu.Lock()
 		if uc.bad == "" {
 			uc.bad = fmt.Sprintf(format, a...)
@@ -263,7 +276,8 @@ func c31RunEgress(p c31EPlan) (res c31EResult) {
 		}
 		return 0, false
 	}
-	ups := make([]*c31Upstream, 2)
+	ups := make([]*c31Upstream, min(max(p.Upstreams, 2), 5))
+	addrList := ""
 	for i := range ups {
 		ln, err := net.Listen("tcp", "127.0.0.1:0")
 		if err != nil {
@@ -271,11 +285,15 @@ func c31RunEgress(p c31EPlan) (res c31EResult) {
 			return
 		}
 		ups[i] = &c31Upstream{ln: ln}
+		if i > 0 {
+			addrList += ","
+		}
+		addrList += ln.Addr().String()
 		ups[i].wg.Add(1)
 		go ups[i].serve(&progress, sizeOf)
 	}
 	const hostTag = "c31-host"
-	e := NewEgress(EgressConfig{Address: ups[0].ln.Addr().String() + "," + ups[1].ln.Addr().String(), HostTag: hostTag})
+	e := NewEgress(EgressConfig{Address: addrList, HostTag: hostTag})
 	defer func() {
 		for _, u := range ups {
 			u.stalled.Store(false)
@@ -311,7 +329,7 @@ func c31RunEgress(p c31EPlan) (res c31EResult) {
 			}
 			u.mu.Unlock()
 		}
-		return n == 2
+		return n >= 2
 	}
 	for t0 := time.Now(); !connected(); time.Sleep(10 * time.Millisecond) {
 		if time.Since(t0) > 10*time.Second {
@@ -320,12 +338,25 @@ func c31RunEgress(p c31EPlan) (res c31EResult) {
 		}
 	}
 	// which listener serves the primary sender (scheduling aid for the "prim"/"sec" stalls)
-	primIdx := 0
-	e.pool.primary.poolMu.Lock()
-	if a := e.pool.primary.pool.addrs; len(a) == 1 && a[0] == ups[1].ln.Addr().String() {
-		primIdx = 1
+	poolAddrs := func(s *tcpSender) []string {
+		s.poolMu.Lock()
+		defer s.poolMu.Unlock()
+		return append([]string(nil), s.pool.addrs...)
 	}
-	e.pool.primary.poolMu.Unlock()
+	upOf := func(addr string) int {
+		for i, u := range ups {
+			if u.ln.Addr().String() == addr {
+				return i
+			}
+		}
+		return -1
+	}
+	primAddrs, secAddrs := poolAddrs(e.pool.primary), poolAddrs(e.pool.secondary)
+	if len(primAddrs) == 0 || len(secAddrs) == 0 || upOf(primAddrs[0]) < 0 || upOf(secAddrs[0]) < 0 {
+		res.inconclusive = fmt.Sprintf("unexpected address pools %q %q", primAddrs, secAddrs)
+		return
+	}
+	primIdx, secIdx := upOf(primAddrs[0]), upOf(secAddrs[0])
 	_ = e.Stats()
 	fill := func(s *tcpSender) int {
 		s.buf.mu.Lock()
@@ -338,6 +369,13 @@ func c31RunEgress(p c31EPlan) (res c31EResult) {
 	var droppedFrame, droppedBody float64
 	nDropped, nAccepted := 0, 0
 	sustained := false
+	// "upstream address dies" plans: packets accepted before the sender has noticed the failure (and
+	// before 2 s have passed) may be lost with the connection; everything accepted later must arrive
+	var killedAt time.Time
+	var writeErrors0 uint64 // write errors counted before the kill
+	detected := false             // a write error has been counted after the kill: the failed batch is settled, nothing more goes to the dead connection
+	optional := map[uint64]bool{} // accepted packets that are allowed to get lost (or, on different connections, to arrive twice)
+	nRequiredAfterKill := 0
 	lastCall := time.Now()
 	for si, st := range p.Steps {
 		switch st.Stall {
@@ -355,12 +393,42 @@ func c31RunEgress(p c31EPlan) (res c31EResult) {
 			ups[primIdx].stalled.Store(true)
 			res.classes["stall-one-upstream"] = true
 		case "sec":
-			ups[1-primIdx].stalled.Store(true)
+			ups[secIdx].stalled.Store(true)
 			res.classes["stall-one-upstream"] = true
 		case "both":
-			ups[0].stalled.Store(true)
-			ups[1].stalled.Store(true)
+			for _, u := range ups {
+				u.stalled.Store(true)
+			}
 			res.classes["stall-both-upstreams"] = true
+		}
+		if st.Kill != "" && killedAt.IsZero() {
+			victims := primAddrs[:1]
+			if st.Kill == "prim01" && len(primAddrs) >= 3 {
+				victims = primAddrs[:2]
+				res.classes["two-addresses-died"] = true
+			}
+			if len(primAddrs) < 2 {
+				res.inconclusive = "kill step needs at least two addresses in the primary pool"
+				return
+			}
+			offMu.Lock()
+			for seq := range accepted { // whatever is still on its way may be lost with the connection
+				optional[seq] = true
+			}
+			offMu.Unlock()
+			for _, a := range victims {
+				u := ups[upOf(a)]
+				u.killed.Store(true)
+				_ = u.ln.Close()
+				u.mu.Lock()
+				for _, c := range u.conns {
+					_ = c.conn.Close()
+				}
+				u.mu.Unlock()
+			}
+			writeErrors0 = e.stats.writeErrors.Load()
+			killedAt = time.Now()
+			res.classes["address-died"] = true
 		}
 		if st.GapMs > 0 {
 			time.Sleep(time.Duration(st.GapMs) * time.Millisecond)
@@ -382,6 +450,10 @@ func c31RunEgress(p c31EPlan) (res c31EResult) {
 			pkt = append(pkt[:pktHeadLen], body...)
 			binary.LittleEndian.PutUint32(pkt[:pktHeadLen], uint32(len(body)))
 			frameLen := len(pkt)
+			if !killedAt.IsZero() && !detected && e.stats.writeErrors.Load() > writeErrors0 {
+				detected = true
+			}
+			mustArrive := detected && time.Since(killedAt) >= 2*time.Second // decided before the call
 			fillP, fillS := fill(e.pool.primary), fill(e.pool.secondary)
 			pkt = e.WritePacketLocked(pkt)
 			if cap(pkt) < pktFrameMax {
@@ -393,6 +465,13 @@ func c31RunEgress(p c31EPlan) (res c31EResult) {
 			case s.ForwardedPackets == 1 && s.DroppedPackets == 0:
 				offMu.Lock()
 				accepted[seq] = size
+				if !killedAt.IsZero() {
+					if mustArrive {
+						nRequiredAfterKill++
+					} else {
+						optional[seq] = true
+					}
+				}
 				offMu.Unlock()
 				nAccepted++
 			case s.ForwardedPackets == 0 && s.DroppedPackets == 1:
@@ -408,6 +487,27 @@ func c31RunEgress(p c31EPlan) (res c31EResult) {
 				return false
 			}
 			return true
+		}
+		if st.Await && !killedAt.IsZero() {
+			// keep the sender writing (a batch of 40 is handed over at once) until it has hit the dead
+			// connection; bounded, and never more than the dead sender's buffer could hide
+			for n := 0; !(detected && time.Since(killedAt) >= 2*time.Second); n++ {
+				if time.Since(killedAt) > 20*time.Second {
+					res.inconclusive = "the sender did not count a write error within 20 s after its upstream was closed"
+					return
+				}
+				if !detected && n%30 == 0 && n < 90 {
+					for k := 0; k < 40; k++ {
+						if !offer() {
+							return
+						}
+					}
+				}
+				time.Sleep(10 * time.Millisecond)
+				if !detected && e.stats.writeErrors.Load() > writeErrors0 {
+					detected = true
+				}
+			}
 		}
 		for k, d0 := 0, nDropped; k < st.Burst && !(st.ToDrop && nDropped > d0); k++ {
 			if !offer() {
@@ -426,14 +526,16 @@ func c31RunEgress(p c31EPlan) (res c31EResult) {
 	}
 	for _, u := range ups {
 		u.rateKBs.Store(0)
+		u.stalled.Store(false)
 	}
-	ups[0].stalled.Store(false)
-	ups[1].stalled.Store(false)
 	if os.Getenv("VERIF_C31_DEBUG") != "" {
 		fmt.Fprintf(os.Stderr, "  calls done %v after start, dropped %d accepted %d\n", time.Since(tStart).Round(time.Millisecond), nDropped, nAccepted)
 		defer func() {
 			fmt.Fprintf(os.Stderr, "  drained %v after start\n", time.Since(tStart).Round(time.Millisecond))
 		}()
+	}
+	if !killedAt.IsZero() {
+		res.nontrivial = true
 	}
 	if nDropped > 0 {
 		res.classes["packets-dropped"] = true
@@ -452,6 +554,7 @@ func c31RunEgress(p c31EPlan) (res c31EResult) {
 	pos := map[*c31UpConn]*connPos{}
 	var reported float64
 	nReports := 0
+	seenRequired := 0
 	check := func(final bool) (done bool, problem string) {
 		wantKey := receiver.TCPPrefix + string(receiver.TCPMagicV2Balancer) + string(binary.LittleEndian.AppendUint32(nil, uint32(len(hostTag)))) + hostTag
 		for ui, u := range ups {
@@ -481,10 +584,18 @@ func c31RunEgress(p c31EPlan) (res c31EResult) {
 						problem = fmt.Sprintf("upstream %d connection %d: packet #%d arrives after #%d (acceptance order broken)", ui, ci, f.seq, cp.last)
 					}
 					cp.last = f.seq
-					if seen[f.seq] && problem == "" {
-						problem = fmt.Sprintf("packet #%d arrived more than once", f.seq)
+					if seen[f.seq] {
+						if optional[uint64(f.seq)] {
+							res.classes["duplicate-of-packet-in-flight-at-failure"] = true
+						} else if problem == "" {
+							problem = fmt.Sprintf("packet #%d arrived more than once", f.seq)
+						}
+						continue
 					}
 					seen[f.seq] = true
+					if !optional[uint64(f.seq)] {
+						seenRequired++
+					}
 				}
 				cp.done = len(c.frames)
 			}
@@ -498,12 +609,18 @@ func c31RunEgress(p c31EPlan) (res c31EResult) {
 		}
 		// every frame that carried a packet was verified against the ledger by the reader (an unbooked
 		// packet is an errText above), so the accepted packets still missing are a matter of counting
-		missing := nAccepted - len(seen)
-		if reported != 0 && reported != droppedFrame && reported != droppedBody && (reported > droppedFrame || final) {
+		missing := nAccepted - len(optional) - seenRequired
+		if killedAt.IsZero() && reported != 0 && reported != droppedFrame && reported != droppedBody && (reported > droppedFrame || final) {
 			return true, fmt.Sprintf("drop reports add up to %v bytes in %d reports, dropped were %d packets = %v frame bytes (%v body bytes)", reported, nReports, nDropped, droppedFrame, droppedBody)
 		}
 		reportOK := nDropped == 0 && reported == 0 || nDropped > 0 && (reported == droppedFrame || reported == droppedBody)
+		if !killedAt.IsZero() {
+			reportOK = true // a report may have gone down with the connection
+		}
 		if missing == 0 && reportOK {
+			if !killedAt.IsZero() && nRequiredAfterKill > 0 {
+				res.classes["address-died-later-packets-arrived"] = true
+			}
 			if sustained && nDropped > 0 && nReports >= 3 {
 				res.classes["sustained-overload-several-reports"] = true
 			}
@@ -515,7 +632,7 @@ func c31RunEgress(p c31EPlan) (res c31EResult) {
 				firstMissing := int64(-1)
 				offMu.Lock()
 				for seq := range accepted {
-					if !seen[int64(seq)] && (firstMissing < 0 || int64(seq) < firstMissing) {
+					if !seen[int64(seq)] && !optional[seq] && (firstMissing < 0 || int64(seq) < firstMissing) {
 						firstMissing = int64(seq)
 					}
 				}
@@ -552,6 +669,17 @@ func c31RunEgress(p c31EPlan) (res c31EResult) {
 		}
 		if idle := time.Since(lastProgress); idle > c31StuckAfter {
 			_, problem = check(true)
+			if !killedAt.IsZero() {
+				healthy := 0
+				for _, u := range ups {
+					if !u.killed.Load() {
+						healthy++
+					}
+				}
+				es := e.Stats()
+				res.violation = fmt.Sprintf("%s; no frame received for %v although %d of %d upstream addresses are alive and reading (pools %q / %q, write errors %d, reconnect errors %d)", problem, idle.Round(time.Millisecond), healthy, len(ups), primAddrs, secAddrs, es.WriteErrors, es.ReconnectErrors)
+				return
+			}
 			if es := e.Stats(); es.WriteErrors > 0 || es.ReconnectErrors > 0 || res.classes["reconnected"] {
 				res.inconclusive = fmt.Sprintf("a connection failed although the plan has no failure (write errors %d, reconnect errors %d): %s", es.WriteErrors, es.ReconnectErrors, problem)
 				return
@@ -613,6 +741,28 @@ func c31GenSustained() *rapid.Generator[c31EPlan] {
 				PushMs: rapid.IntRange(1200, 2000).Draw(t, "pushms"), Size: size},
 			{Stall: "none", GapMs: rapid.IntRange(0, 300).Draw(t, "gap2"), Burst: rapid.IntRange(0, 3).Draw(t, "tail"), Size: rapid.IntRange(12, 200).Draw(t, "tailsize")},
 		}}
+	})
+}
+
+// upstream address dies: 3-5 listeners, so that the primary sender's pool has 2-3 addresses; after some
+// traffic the address that sender dialled first (and, with 5 listeners, possibly the next one too) is
+// closed together with its connections while the producer goes on; the sender must move on to a living
+// address of its pool.
+func c31GenDies() *rapid.Generator[c31EPlan] {
+	return rapid.Custom(func(t *rapid.T) c31EPlan {
+		p := c31EPlan{Upstreams: rapid.IntRange(3, 5).Draw(t, "upstreams")}
+		size := func() int { return rapid.IntRange(12, 3000).Draw(t, "size") }
+		p.Steps = append(p.Steps, c31EStep{GapMs: rapid.IntRange(0, 300).Draw(t, "gap"), Burst: rapid.IntRange(1, 80).Draw(t, "warm"), Size: size()})
+		kill := "prim0"
+		if p.Upstreams == 5 && rapid.Bool().Draw(t, "two") {
+			kill = "prim01"
+		}
+		p.Steps = append(p.Steps, c31EStep{Kill: kill, GapMs: rapid.IntRange(0, 400).Draw(t, "gapAfterKill"), Burst: rapid.IntRange(0, 45).Draw(t, "burstAfterKill"), Size: size()})
+		p.Steps = append(p.Steps, c31EStep{Await: true, Burst: rapid.IntRange(1, 60).Draw(t, "later"), Size: size()})
+		for i, n := 0, rapid.IntRange(0, 2).Draw(t, "more"); i < n; i++ {
+			p.Steps = append(p.Steps, c31EStep{GapMs: rapid.IntRange(0, 1200).Draw(t, "gapLater"), Burst: rapid.IntRange(1, 120).Draw(t, "burstLater"), Size: size()})
+		}
+		return p
 	})
 }
 
@@ -686,9 +836,10 @@ func TestVerifC31Egress(t *testing.T) {
 		c := &c31ECase{}
 		// every batch: two sustained-overload plans (small packets: cheap in memory, one busy producer
 		// each) and at most one flood plan (first-touches ~100 MB)
-		c.Plans = append(c.Plans, c31GenSustained().Draw(rt, "sustained"), c31GenSustained().Draw(rt, "sustained"))
+		c.Plans = append(c.Plans, c31GenSustained().Draw(rt, "sustained"), c31GenSustained().Draw(rt, "sustained"),
+			c31GenDies().Draw(rt, "dies")) // and one plan in which an upstream address dies
 		floods := 0
-		for i := 2; i < c31EPlansPerCase; i++ {
+		for i := 3; i < c31EPlansPerCase; i++ {
 			p := c31GenEPlan(floods < 1).Draw(rt, "plan")
 			for _, st := range p.Steps {
 				if st.Stall == "both" {
